@@ -15,6 +15,8 @@
 #include <memory>
 #include <thread>
 #include <vector>
+#include <sys/mman.h>
+#include <unistd.h>
 
 // every header of the library, in alphabetical order, as a program using several parts of xtl would have them: what one
 // header declares (helpers in xtl::detail, overloads, macros) must not change what the hash functions compute
@@ -72,6 +74,7 @@ namespace
     struct Key
     {
         std::unique_ptr<unsigned char[]> block;     // exact size + alignment offset
+        std::shared_ptr<void> mapping;              // or: pages of their own, the key ending at the last byte before an unmapped page
         const unsigned char* p = nullptr;
         size_t len = 0;
         uint64_t seed = 0;
@@ -106,9 +109,27 @@ namespace
         Key k;
         k.len = pick_len(r.next());
         size_t align = static_cast<size_t>(r.below(8));
-        k.block.reset(new unsigned char[k.len + 16]);
-        unsigned char* base = k.block.get();
-        unsigned char* q = base + (8 - reinterpret_cast<uintptr_t>(base) % 8) % 8 + align;     // address == align (mod 8)
+        unsigned char* q;
+        if (r.below(5) == 0)
+        {
+            // "read only bytes in [buffer, buffer+length)": the byte after the key does not exist.  An over-read that a sanitizer
+            // was told to ignore, or that stays inside an allocator's padding, is a fault here (SIGSEGV -> crash finding).
+            const size_t page = static_cast<size_t>(sysconf(_SC_PAGESIZE));
+            const size_t pages = (k.len + page - 1) / page + 1;
+            void* m = mmap(nullptr, (pages + 1) * page, PROT_READ | PROT_WRITE, MAP_PRIVATE | MAP_ANONYMOUS, -1, 0);
+            if (m == MAP_FAILED) std::abort();
+            if (mprotect(static_cast<unsigned char*>(m) + pages * page, page, PROT_NONE) != 0) std::abort();
+            const size_t total = (pages + 1) * page;
+            k.mapping = std::shared_ptr<void>(m, [total](void* p) { munmap(p, total); });
+            q = static_cast<unsigned char*>(m) + pages * page - k.len;
+            (void)align;
+        }
+        else
+        {
+            k.block.reset(new unsigned char[k.len + 16]);
+            unsigned char* base = k.block.get();
+            q = base + (8 - reinterpret_cast<uintptr_t>(base) % 8) % 8 + align;     // address == align (mod 8)
+        }
         for (size_t i = 0; i < k.len; ++i) q[i] = static_cast<unsigned char>(r.next() >> 32);
         k.p = q;
         k.seed = (r.below(4) == 0) ? 0 : r.next();
@@ -144,14 +165,61 @@ namespace
         }
     }
 
+    // ---- the same functions called BEFORE main(): a program may hash from the constructor of a global object (a registry
+    // of names, say).  A pure function has no initialisation of its own that such a call could precede, so what it returns
+    // then is what it returns later.  The object below is constructed before every object of default priority, whatever
+    // header they come from; it hashes a fixed set of keys and keeps the results for the runs to compare.
+    constexpr int N_EARLY = 40;
+    struct EarlyResult { uint64_t got64, gotb; uint32_t got32; size_t got_fs; bool fs; bool done; };
+    EarlyResult g_early[N_EARLY];                     // constant-initialised (zero)
+    inline size_t early_len(int i) { return i < 32 ? static_cast<size_t>(i) : static_cast<size_t>(61 + 37 * (i - 32)); }
+    inline void early_key(int i, std::vector<unsigned char>& bytes, uint64_t& seed)
+    {
+        Rng r(mix(0xC14, static_cast<uint64_t>(i), 0x6561726c79ULL));
+        bytes.resize(early_len(i));
+        for (unsigned char& b : bytes) b = static_cast<unsigned char>(1 + (r.next() >> 32) % 255);      // no NUL: also a fixed-string key
+        seed = (i % 3 == 0) ? 0 : r.next();
+    }
+    inline void early_eval(int i, EarlyResult& e)
+    {
+        std::vector<unsigned char> b; uint64_t seed;
+        early_key(i, b, seed);
+        e.got32 = xtl::murmur2_x86(b.data(), b.size(), static_cast<uint32_t>(seed));
+        e.got64 = xtl::murmur2_x64(b.data(), b.size(), seed);
+        e.gotb = xtl::hash_bytes(b.data(), b.size(), static_cast<size_t>(seed));
+        e.fs = b.size() <= 64;
+        e.got_fs = 0;
+        if (e.fs) { FS s(reinterpret_cast<const char*>(b.data()), b.size()); e.got_fs = std::hash<FS>()(s); }
+        e.done = true;
+    }
+    struct EarlyCaller { EarlyCaller() { for (int i = 0; i < N_EARLY; ++i) early_eval(i, g_early[i]); } };
+    EarlyCaller g_early_caller __attribute__((init_priority(101)));
+
     struct World
     {
         Run& run; const Plan& plan;
         World(Run& r, const Plan& p) : run(r), plan(p) {}
         [[noreturn]] void viol(const char* oracle, const std::string& msg) { fail("model", std::string("C14/") + oracle + "/concurrent_callers", msg); }
+        void check_early(uint64_t pick)
+        {
+            int i = static_cast<int>(pick % N_EARLY);
+            const EarlyResult& e = g_early[i];
+            if (!e.done) fail("model", "C14/phase/before_main", "the pre-main caller did not run");
+            EarlyResult now{};
+            early_eval(i, now);
+            std::vector<unsigned char> b; uint64_t seed;
+            early_key(i, b, seed);
+            std::string what = " for a key of " + std::to_string(b.size()) + " bytes";
+            if (e.got64 != now.got64 || e.gotb != now.gotb || e.got32 != now.got32 || (e.fs && e.got_fs != now.got_fs))
+                fail("model", "C14/phase/before_main", "a hash evaluated before main() (from the constructor of a global object) differs from the same call made now" + what);
+            if (e.got64 != ref::murmur64a(b.data(), b.size(), seed) || e.got32 != ref::murmur2_32(b.data(), b.size(), static_cast<uint32_t>(seed)))
+                fail("model", "C14/phase/before_main", "a hash evaluated before main() differs from the reference" + what);
+            SIM_PROBE("hash_called_before_main_compared");
+        }
         void step(const Step& st)
         {
             StepScope sc(run, st, "three_callers");
+            check_early(st.d ^ st.a);
             Rng r(mix(st.a, st.b, st.c));
             std::vector<Key> keys[NCALLERS];
             Key shared = make_key(r);
